@@ -184,7 +184,8 @@ func Harness_app_pipeline() {
 	// one command per path: forks inside one command (sign tests, sorting by amount) do not
 	// multiply with those of the others
 	hpCmds := []string{"register", "totals", "balance-single", "csv-log", "csv-resolved", "element-total", "quantity", "unresolved", "print",
-		"register-template", "register-left-aligned", "register-totals-only", "register-no-totals", "summary"}
+		"register-template", "register-left-aligned", "register-totals-only", "register-no-totals", "summary",
+		"quantity-desc", "element-total-desc"}
 	ci := verifBound("command", -1)
 	if ci < 0 {
 		ci = verifChoose("command", len(hpCmds))
@@ -341,9 +342,19 @@ func Harness_app_pipeline() {
 	}
 
 	// ---- report element-total x: one row per recipe containing x, with the resolved amount
-	if cmd != "element-total" {
-	} else if out, ok := run("element-total", "report", "element-total", hpX); ok {
+	hpOrdered := func(tag string, nums []float64, desc bool) {
+		for k := 0; k+1 < len(nums); k++ {
+			if desc {
+				verifAssert(tag+":rows-in-descending-order", nums[k] >= nums[k+1])
+			} else {
+				verifAssert(tag+":rows-in-ascending-order", nums[k] <= nums[k+1])
+			}
+		}
+	}
+	if cmd != "element-total" && cmd != "element-total-desc" {
+	} else if out, ok := run(cmd, map[string][]string{"element-total": {"report", "element-total", hpX}, "element-total-desc": {"report", "element-total", "--desc", hpX}}[cmd]...); ok {
 		names, nums := hpWords(out), verifNums(out)
+		hpOrdered("element-total", nums, cmd == "element-total-desc")
 		n := 0
 		for _, r := range []string{hpR0, hpR1} {
 			for _, i := range ref.Rec[r] {
@@ -363,9 +374,10 @@ func Harness_app_pipeline() {
 	}
 
 	// ---- report quantity: per food, the sum of its logged quantities over the period
-	if cmd != "quantity" {
-	} else if out, ok := run("quantity", "report", "quantity"); ok {
+	if cmd != "quantity" && cmd != "quantity-desc" {
+	} else if out, ok := run(cmd, map[string][]string{"quantity": {"report", "quantity"}, "quantity-desc": {"report", "quantity", "--desc"}}[cmd]...); ok {
 		names, nums := hpWords(out), verifNums(out)
+		hpOrdered("quantity", nums, cmd == "quantity-desc")
 		var allRaw shared.Elements
 		for _, raw := range days {
 			allRaw = append(allRaw, raw...)
